@@ -58,6 +58,17 @@ Check C08_worker_exits_after_abort :
   q_worker (qstep (qstep s QDone) QCheck) = WExited \/ q_worker s = WExited.
 Print Assumptions C08_worker_exits_after_abort.
 
+(* "Every task posted before abort is either run or discarded by abort": right after a stop - at any point of any trace - the queue
+   is empty and every task posted so far has been started or discarded (none is left waiting in a queue nobody serves). *)
+Theorem C08_stop_discards_what_is_queued :
+  forall ops, let s := qstep (qrun ops) QStop in
+  q_queue s = [] /\ forall t, In t (q_posted s) -> In t (q_started s) \/ In t (q_discarded s).
+Proof. exact stop_discards_what_is_queued. Qed.
+Check C08_stop_discards_what_is_queued :
+  forall ops, let s := qstep (qrun ops) QStop in
+  q_queue s = [] /\ forall t, In t (q_posted s) -> In t (q_started s) \/ In t (q_discarded s).
+Print Assumptions C08_stop_discards_what_is_queued.
+
 (* post and stop always wake a sleeping worker. *)
 Theorem C08_notifications_not_lost :
   forall s, q_worker s = WWaiting -> (forall t, q_worker (qstep s (QPost t)) = WIdle) /\ q_worker (qstep s QStop) = WIdle.
